@@ -215,6 +215,7 @@ func genC01(seed int64, tier string) *Scenario {
 		sc.Sched.Knobs["lru"] = 1 + r.Intn(3)
 	}
 	g := newLuaGen(r)
+	sc.Plugin = r.Intn(2) == 0
 	emph := []int{0, 0, 0, 1, 2}[r.Intn(5)]
 	sc.Knobs["emph"] = emph
 	nfiles := 1 + r.Intn(9)
